@@ -100,6 +100,9 @@ def _check_len_helper(P):
     return off
 
 
+KNOWN_FIELDS = ('depth', 'active', 'obj', 'msg', 'buffers')
+
+
 def _atom(P, cond, rec, fn):
     """classify a branch condition -> (atom, positive_polarity_means)"""
     c = ir.canon(cond)
@@ -123,6 +126,12 @@ def _atom(P, cond, rec, fn):
         x, y = (ir.top_nocast(z) for z in raw[2])
         if (_is_rec_field(x, rec, 'obj') and y[0] == 'local') or (_is_rec_field(y, rec, 'obj') and x[0] == 'local'):
             return ('match',)
+    # any other field of the record, tested for truth: a piece of state the machine carries along (it starts as the constructor leaves it)
+    neg, r2 = False, raw
+    while r2[0] == 'un' and r2[1] == '!':
+        r2, neg = ir.top_nocast(r2[2]), not neg
+    if r2[0] == 'arrow' and ir.top_nocast(r2[1]) in rec and r2[2] not in KNOWN_FIELDS:
+        return ('nstate' if neg else 'state', r2[2])
     raise Undecided('condition `%s` in %s is outside the exception-record vocabulary' % (ir.fmt(cond), fn['name']))
 
 
@@ -211,6 +220,8 @@ def summarise(P, name, ctx):
                         raise Undecided('buffer slot write not of the form buffers[depth+k] = param in %s' % name)
                     else:
                         effects.append(('setbuf', k))
+                elif lhs[0] == 'arrow' and ir.top_nocast(lhs[1]) in rec and lhs[2] not in KNOWN_FIELDS and ev['op'] == '=' and util.const_int(ev['rhs'], P.enums) is not None:
+                    effects.append(('state', lhs[2], util.const_int(ev['rhs'], P.enums)))
                 elif lhs[0] in ('arrow', 'dot', 'idx', 'un'):
                     raise Undecided('write to `%s` in %s is outside the exception-record vocabulary' % (ir.fmt(lhs), name))
             elif t == 'call':
@@ -303,6 +314,7 @@ class Machine:
         self.steps = 0
         self.maxdepth = maxdepth
         self.live_frames = []
+        self.extra = {}       # further fields of the record the code tests (as the constructor leaves them: 0)
 
     def _eval(self, atom, filt):
         if atom == 'active':
@@ -313,6 +325,10 @@ class Machine:
             if v == self.maxdepth:      # the overflow bound: never reached by bounded programs
                 v = 10 ** 6
             return {'==': d == v, '!=': d != v, '>=': d >= v, '<': d < v, '>': d > v, '<=': d <= v}[op]
+        if atom[0] == 'state':
+            return bool(self.extra.get(atom[1], 0))
+        if atom[0] == 'nstate':
+            return not self.extra.get(atom[1], 0)
         if atom[0] == 'nargs0':
             r = (filt is not None and len(filt) == 0)
             return r if atom[1] else not r
@@ -354,11 +370,17 @@ class Machine:
             raise Undecided('paths of %s disagree in abstract state depth=%d active=%s: %s' % (name, self.depth, self.active, sig))
         return cands[0]
 
-    def apply(self, name, filt=None, frame=None, thrown=None):
+    def apply(self, name, filt=None, frame=None, thrown=None, badfmt=False):
         self.steps += 1
         p = self._select(name, filt)
         for ef in p['effects']:
-            if ef[0] == 'depth':
+            if ef[0] == 'state':
+                self.extra[ef[1]] = ef[2]
+            elif ef[0] == 'msg' and badfmt:
+                # the message has fewer arguments than its format names: formatting it raises FormatError from inside this throw
+                self.apply('exception_throw', thrown='FormatError')
+                raise Refuted('the FormatError raised while formatting the message returned normally')
+            elif ef[0] == 'depth':
                 self.depth += ef[1]
                 if self.depth < 0:
                     raise Refuted('%s drives the nesting depth below zero' % name)
@@ -400,7 +422,7 @@ def run_machine(M, prog):
     """prog: list of statements; ('throw', k) | ('try', id, body, filter, handler)"""
     for st in prog:
         if st[0] == 'throw':
-            M.apply('exception_throw', thrown=st[1])
+            M.apply('exception_throw', thrown=st[1].rstrip('!'), badfmt=st[1].endswith('!'))
             raise Refuted('exception_throw returned normally')
         _, tid, body, filt, handler = st
         d0 = M.depth
@@ -435,7 +457,8 @@ def run_reference(prog, trace):
     """block-structured semantics: returns None (normal) or the raised kind"""
     for st in prog:
         if st[0] == 'throw':
-            return st[1]
+            # (a throw whose message lacks an argument raises FormatError instead)
+            return 'FormatError' if st[1].endswith('!') else st[1]
         _, tid, body, filt, handler = st
         r = run_reference(body, trace)
         if r is None:
@@ -629,7 +652,9 @@ def check_functions(P, ctx, summ):
     ps = summ['exception_throw']
     ok = all(p['result'][0] in ('jump', 'fatal') for p in ps)
     ctx.check(ok, rule, 'exception_throw:never-returns', site(ft), 'every path ends in a jump to the innermost buffer or the fatal report')
-    ok = all(('obj', 'param0') in p['effects'] and ('msg',) in p['effects'] for p in ps)
+    # (paths taken only in a state the constructor does not leave — a further field set — are judged by the protocol exploration)
+    ps0 = [p for p in ps if not any((a[0] == 'state' and v) or (a[0] == 'nstate' and not v) for a, v in p['guards'])]
+    ok = bool(ps0) and all(('obj', 'param0') in p['effects'] and ('msg',) in p['effects'] for p in ps0)
     ctx.check(ok, rule, 'exception_throw:records-object', site(ft), 'the thrown object and formatted message are recorded on every path')
     ok = all((p['result'][0] == 'jump') == any(a[0] == 'depth' and ((a[1] == '>=' and a[2] == 1 and v) or (a[1] == '>' and a[2] == 0 and v) or
                                                                    (a[1] == '==' and a[2] == 0 and not v) or (a[1] == '!=' and a[2] == 0 and v))
@@ -736,10 +761,9 @@ def check_writers(P, ctx):
     ctx.floor(rule, 7)
 
 
-def check_protocol(P, ctx, summ, budget, depth):
-    rule = 'C07.protocol'
-    kinds = ('A', 'B')
-    filters = (frozenset(), frozenset({'A'}), frozenset({'B'}), frozenset({'A', 'B'}))
+def check_protocol(P, ctx, summ, budget, depth, kinds=('A', 'B', 'A!'),
+                   filters=(frozenset(), frozenset({'A'}), frozenset({'B'}), frozenset({'A', 'B'}), frozenset({'FormatError'})), key='block-structure', rule='C07.protocol'):
+    # 'A!': a throw of A whose message names more arguments than it is given — formatting it raises FormatError from inside the throw
     f = P.fn('exception_catch')
     nprog = 0
     steps = 0
@@ -789,14 +813,14 @@ def check_protocol(P, ctx, summ, budget, depth):
             if first_bad is None or len(sp) < len(first_bad[0]):
                 first_bad = (sp, bad)
     ctx.stats['paths'] += nprog
-    ctx.note('protocol: %d program trees (<=%d try blocks, nesting<=%d, kinds %s, 4 filters), %d summary applications' % (nprog, budget, depth, kinds, steps))
+    ctx.note('protocol: %d program trees (<=%d try blocks, nesting<=%d, kinds %s, %d filters), %d summary applications' % (nprog, budget, depth, kinds, len(filters), steps))
     if first_bad:
         # classify: is it the "handled exception fires again" family?
-        ctx.refuted(rule, 'block-structure', site(f),
+        ctx.refuted(rule, key, site(f),
                     'the abstract machine built from the exception_* summaries disagrees with block-structured semantics on %d of %d program trees' % (nbad, nprog),
                     ['smallest counterexample: ' + first_bad[0], first_bad[1]])
     else:
-        ctx.proved(rule, 'block-structure', site(f),
+        ctx.proved(rule, key, site(f),
                    'code-derived machine agrees with block-structured semantics on all %d program trees' % nprog)
     ctx.floor(rule, 1)
     return nprog, steps
@@ -817,12 +841,20 @@ def run(ctx, load):
     check_functions(P, ctx, summ)
     check_writers(P, ctx)
     try:
+        check_protocol(P, ctx, summ, 2, 2)
         if ctx.tier == 'thorough':
-            check_protocol(P, ctx, summ, 3, 3)
-        else:
-            check_protocol(P, ctx, summ, 2, 2)
+            check_protocol(P, ctx, summ, 3, 3, kinds=('A', 'B'), filters=(frozenset(), frozenset({'A'}), frozenset({'B'}), frozenset({'A', 'B'})), key='block-structure:3-deep')
+            check_protocol(P, ctx, summ, 3, 3, kinds=('A', 'A!'), filters=(frozenset(), frozenset({'A'}), frozenset({'FormatError'})), key='block-structure:3-deep-malformed')
     except Undecided as u:
         ctx.undecided('C07.protocol', 'machine', 'src/Exception.c', str(u))
+    # a filter entry matches a thrown kind by eq: eq must be cmp == 0 and two exception kinds (Type records) must compare equal exactly
+    # when they are the same kind — by name, whether or not they are one object (a kind declared in a header is one object per unit)
+    Pm = load(['src/Cmp.c', 'src/Type.c', 'src/Exception.c'], 'default')
+    from .rules_c09 import check_predicates
+    from . import evals
+    ctx.borrow('C07.filter-match', 1, lambda: check_predicates(Pm, ctx), only=lambda o: o['key'] == 'eq')
+    evals.report_type_cmp(Pm, ctx, 'C07.filter-match', site, what=('cmp',))
+    ctx.floor('C07.filter-match', 2)
 
 
 EXPLANATION = (
